@@ -1,5 +1,7 @@
 """Canary module that the safety checks import *before* arming the monitors.  Everything a document could
 make the library do to one of these objects records itself in CALLS."""
+import collections.abc
+
 CALLS = []
 
 
@@ -66,6 +68,62 @@ class WithProperty:
     value = property(_getter)
 
 
+class GenLike(collections.abc.Generator):
+    """Speaks the generator protocol without being a native generator object."""
+    def send(self, value):
+        record("genlike-send")
+        raise StopIteration
+
+    def throw(self, *exc):
+        record("genlike-throw")
+        raise StopIteration
+
+
+class IterLike:
+    def __iter__(self):
+        record("iterlike-iter")
+        return self
+
+    def __next__(self):
+        record("iterlike-next")
+        raise StopIteration
+
+
+class CallableObj:
+    def __call__(self, *args, **kwds):
+        record("callable-instance-called")
+        return "called"
+
+
+class ContextLike:
+    def __enter__(self):
+        record("context-enter")
+        return self
+
+    def __exit__(self, *exc):
+        record("context-exit")
+        return False
+
+
+def _native_gen():
+    record("native-gen-advanced")
+    yield "first"
+    record("native-gen-resumed")
+    yield "second"
+
+
+def reset():
+    """Fresh stateful objects before every monitored load (a generator object can be advanced only once)."""
+    global NATIVE_GEN
+    NATIVE_GEN = _native_gen()
+
+
 VALUE = 42
 LIST = [1, 2]
 INSTANCE = Plain()
+GENLIKE = GenLike()
+ITERLIKE = IterLike()
+CALLABLE = CallableObj()
+CONTEXT = ContextLike()
+NATIVE_GEN = _native_gen()
+COROUTINE_FUNC = _native_gen
